@@ -1395,6 +1395,11 @@ class SymDict:
     def __iter__(self):
         raise Unsupported("iteration over guarded dict")
 
+    def __getattr__(self, name):
+        if name.startswith("__"):
+            raise AttributeError(name)
+        raise Unsupported(f"dict.{name} on a dict written under symbolic guards")
+
 
 class SymList:
     def __init__(self):
@@ -1424,6 +1429,11 @@ class SymList:
         n = len(self)
         for i in range(n):
             yield self[i]
+
+    def __getattr__(self, name):
+        if name.startswith("__"):
+            raise AttributeError(name)
+        raise Unsupported(f"list.{name} on a list written under symbolic guards")
 
 
 class ConstMap:
